@@ -391,9 +391,14 @@ def judge_base(case, ms, apath, got, err, seed):
     if err is not None:
         if lay["arch"] == "tar" and lay["comp"] == "plain" and not ms:
             return [], "empty-plain-tar:" + err.split(":")[0]          # 10 KiB of zeros carry no magic: not judged
-        fails.append(("raises", f"read_archive raised {short(err, 300)} after yielding {len(got)} of {len(exp)} expected results; members "
-                                f"{[m['name'] for m in ms]}"))
-        return fails, "raises:" + err.split(":")[0]
+        lost = [e[2] for e in exp if e[2] not in [g[1] for g in got]]
+        if lost:
+            fails.append(("member_result", f"no result for supported member(s) {lost}: read_archive raised {short(err, 300)} after yielding "
+                                           f"{len(got)} of {len(exp)} expected results; members {[m['name'] for m in ms]}"))
+        else:
+            fails.append(("raises", f"read_archive raised {short(err, 300)} on a valid archive (all {len(exp)} expected results had been "
+                                    f"yielded); members {[m['name'] for m in ms]}"))
+        return fails, "raises:" + err.split(":")[0] + (":lost" if lost else "")
     by_path = {m_full: i for i, _, m_full, _ in exp}
     all_paths = {f"{apath}!/{m['name']}": m for m in ms}
     got_paths = [g[1] for g in got]
@@ -721,10 +726,15 @@ def shrinks(case):
             c = {"lay": case["lay"], "members": mem[:i] + ["txt"] + mem[i + 1:], "corrupt": cor}
             if _valid(c):
                 yield c
+    for i, kind in enumerate(mem):
+        if kind == "bin":
+            c = {"lay": case["lay"], "members": mem[:i] + ["hidden"] + mem[i + 1:], "corrupt": cor}
+            if _valid(c):
+                yield c
 
 
 def _kind_match(a, b):
-    return a == b or (a == "txt" and b != "dir")
+    return a == b or (a == "txt" and b != "dir") or (a == "hidden" and b == "bin")
 
 
 def embeds(small, big):
